@@ -1892,3 +1892,38 @@ variant('t-exception-text-names-the-class', ['C12'], 'rsocket/exceptions.py',
     def __str__(self) -> str:
         return str(self.args[0]) if self.args else self.__class__.__name__.lower()
 """, kind='twin')
+
+# C01.m load balancer
+LBR = 'rsocket/load_balancer/load_balancer_rsocket.py'
+variant('b-balancer-random-index-inclusive', ['C01'], 'rsocket/load_balancer/random_client.py',
+        "random.randint(0, len(self._pool) - 1)", "random.randint(0, len(self._pool))",
+        ('C01.m', 'LoadBalancerRandom.select'))
+variant('b-balancer-cursor-not-wrapped', ['C01'], 'rsocket/load_balancer/round_robin.py',
+        "        self._current_index = (self._current_index + 1) % len(self._pool)",
+        "        self._current_index = self._current_index + 1 if self._current_index < len(self._pool) else 0",
+        ('C01.m', 'LoadBalancerRoundRobin.select'))
+variant('b-balancer-channel-drops-the-publisher', ['C01'], LBR,
+        """            payload, publisher, sending_done
+""", """            payload, sending_done=sending_done
+""", ('C01.m', 'LoadBalancerRSocket.request_channel'))
+variant('b-balancer-stream-served-as-response', ['C01'], LBR,
+        "        return self._select_client().request_stream(payload)",
+        "        return self._select_client().request_response(payload)",
+        ('C01.m', 'LoadBalancerRSocket.request_stream'))
+variant('b-balancer-selects-twice', ['C01'], LBR,
+        "        return self._select_client().fire_and_forget(payload)",
+        """        self._select_client()
+        return self._select_client().fire_and_forget(payload)""",
+        ('C01.m', 'LoadBalancerRSocket.fire_and_forget'))
+variant('t-balancer-client-in-a-local', ['C01'], LBR,
+        "        return self._select_client().request_response(payload)",
+        """        client = self._strategy.select()
+        result = client.request_response(payload)
+        return result""", kind='twin')
+variant('t-balancer-randrange', ['C01'], 'rsocket/load_balancer/random_client.py',
+        "random.randint(0, len(self._pool) - 1)", "random.randrange(len(self._pool))", kind='twin')
+variant('t-balancer-cursor-read-after-advance', ['C01'], 'rsocket/load_balancer/round_robin.py',
+        """        client = self._pool[self._current_index]
+        self._current_index = (self._current_index + 1) % len(self._pool)
+        return client""", """        self._current_index = (self._current_index + 1) % len(self._pool)
+        return self._pool[self._current_index]""", kind='twin')
